@@ -63,11 +63,50 @@ where
     R: Read,
 {
     match read_header(reader, &mut container.header)? {
-        0 => Ok(0),
+        0 => {
+            // The EOF container is only complete with its (empty) block. Consume it so that a
+            // stream that ends inside the EOF container is an error rather than a clean end.
+            let mut buf = [0; header::EOF_LENGTH];
+            reader.read_exact(&mut buf)?;
+            Ok(0)
+        }
         len => {
             container.src.resize(len, 0);
             reader.read_exact(&mut container.src)?;
             Ok(len)
         }
+    }
+}
+
+#[cfg(test)]
+mod tests {
+    use super::*;
+
+    // § 9 "End of file container" (2022-04-12)
+    static EOF: [u8; 38] = [
+        0x0f, 0x00, 0x00, 0x00, 0xff, 0xff, 0xff, 0xff, 0x0f, 0xe0, 0x45, 0x4f, 0x46, 0x00, 0x00,
+        0x00, 0x00, 0x01, 0x00, 0x05, 0xbd, 0xd9, 0x4f, 0x00, 0x01, 0x00, 0x06, 0x06, 0x01, 0x00,
+        0x01, 0x00, 0x01, 0x00, 0xee, 0x63, 0x01, 0x4b,
+    ];
+
+    #[test]
+    fn test_read_container_with_eof_container() -> io::Result<()> {
+        let mut container = Container::default();
+
+        let mut src = &EOF[..];
+        assert_eq!(read_container(&mut src, &mut container)?, 0);
+        assert!(src.is_empty());
+
+        // The stream ends inside the EOF container.
+        for i in 23..EOF.len() {
+            let mut src = &EOF[..i];
+
+            assert!(matches!(
+                read_container(&mut src, &mut container),
+                Err(e) if e.kind() == io::ErrorKind::UnexpectedEof
+            ));
+        }
+
+        Ok(())
     }
 }
